@@ -6,8 +6,11 @@
   set on `np + ne` qubits; the photons `m..np-1` are absorbed (their columns are literal: one generator is `+Z_q`, nobody else acts
   on `q`); no remaining photon `p < m` is a product qubit; and the emitter budget bounds the height of every cut left of the photon
   to be absorbed (`h(k) ≤ ne` for `k + 1 < m`; these cuts are never touched again, so this is inherited from `ne = max h(target)`).
+  The invariant carries a set `I` of ISOLATED photons (product qubits `X_p`, column `LitX`): with `I` empty every round returns
+  (`photonLoop_ok`); if some remaining photon is isolated the loop raises IndexError at the first one it meets (`photonLoop_err`, D3).
 -/
 import GraphiqModel.Proofs.SolverCompleteAbsorb
+import GraphiqModel.Proofs.SolverCompleteLitX
 namespace Graphiq.Solver
 open Graphiq Graphiq.Cliff PRow STab
 
@@ -63,7 +66,7 @@ theorem cnt_true (n : Nat) : cnt n (fun _ => true) = n := by
 
 /-! ### the loop invariant -/
 
-structure RInv (np ne m : Nat) (s : St) : Prop where
+structure RInv (I : Nat → Prop) (np ne m : Nat) (s : St) : Prop where
   m_le : m ≤ np
   np_eq : s.np = np
   ne_eq : s.ne = ne
@@ -71,20 +74,23 @@ structure RInv (np ne m : Nat) (s : St) : Prop where
   good : s.t.Good
   indep : s.t.LinIndep
   lit : ∀ q, m ≤ q → q < np → s.t.Lit q
-  notProd : ∀ p, p < m → s.t.NotProd p
+  notProd : ∀ p, p < m → ¬ I p → s.t.NotProd p
+  litx : ∀ p, p < m → I p → s.t.LitX p
   cut : ∀ k, k + 1 < m → s.t.cutRank k ≤ ne + (k + 1)
 
 /-- the invariant along gates on the photon `p = m - 1` and the emitters, and witnessed row operations: everything is kept except
     what concerns photon `p` itself -/
-theorem RInv.reach {np ne p : Nat} {s : St} (h : RInv np ne (p + 1) s) (hp : p < np) (t' : STab)
+theorem RInv.reach {I : Nat → Prop} {np ne p : Nat} {s : St} (h : RInv I np ne (p + 1) s) (hp : p < np) (t' : STab)
     (hr : Reach (fun c => c = p ∨ np ≤ c) s.t t') :
-    t'.n = np + ne ∧ t'.Good ∧ t'.LinIndep ∧ (∀ q, p + 1 ≤ q → q < np → t'.Lit q) ∧ (∀ p', p' < p → t'.NotProd p') ∧
-    (∀ k, k + 1 < p + 1 → t'.cutRank k ≤ ne + (k + 1)) := by
-  refine ⟨hr.n_eq.trans h.n_eq, hr.good h.good, hr.indep h.good h.indep, ?_, ?_, ?_⟩
+    t'.n = np + ne ∧ t'.Good ∧ t'.LinIndep ∧ (∀ q, p + 1 ≤ q → q < np → t'.Lit q) ∧ (∀ p', p' < p → ¬ I p' → t'.NotProd p') ∧
+    (∀ p', p' < p → I p' → t'.LitX p') ∧ (∀ k, k + 1 < p + 1 → t'.cutRank k ≤ ne + (k + 1)) := by
+  refine ⟨hr.n_eq.trans h.n_eq, hr.good h.good, hr.indep h.good h.indep, ?_, ?_, ?_, ?_⟩
   · intro q hq1 hq2
     exact hr.lit q (by rw [h.n_eq]; omega) (by intro hA; rcases hA with e | e <;> omega) (h.lit q hq1 hq2)
-  · intro p' hp'
-    exact hr.notProd h.good p' (by rw [h.n_eq]; omega) (by intro hA; rcases hA with e | e <;> omega) (h.notProd p' (by omega))
+  · intro p' hp' hI
+    exact hr.notProd h.good p' (by rw [h.n_eq]; omega) (by intro hA; rcases hA with e | e <;> omega) (h.notProd p' (by omega) hI)
+  · intro p' hp' hI
+    exact hr.litX p' (by rw [h.n_eq]; omega) (by intro hA; rcases hA with e | e <;> omega) (h.litx p' (by omega) hI)
   · intro k hk
     rw [hr.cutRank_eq h.good k (by intro c hA; rcases hA with e | e <;> omega)]
     exact h.cut k hk
@@ -194,15 +200,17 @@ theorem row_at_exists (t : STab) (piv : Nat → Nat) (he : Echelon t piv) (hl : 
   exact ⟨i, hi, hfi⟩
 
 /-- replacing the tableau by the result of witnessed row operations (`rref`) keeps the invariant -/
-theorem RInv.cops {np ne m : Nat} {s : St} (h : RInv np ne m s) (t' : STab) (o : COps s.t t') :
-    RInv np ne m { s with t := t' } := by
+theorem RInv.cops {I : Nat → Prop} {np ne m : Nat} {s : St} (h : RInv I np ne m s) (t' : STab) (o : COps s.t t') :
+    RInv I np ne m { s with t := t' } := by
   have hr : Reach (fun _ => False) s.t t' := Reach.of_cops o
-  refine ⟨h.m_le, h.np_eq, h.ne_eq, hr.n_eq.trans h.n_eq, hr.good h.good, hr.indep h.good h.indep, ?_, ?_, ?_⟩
+  have hm := h.m_le
+  refine ⟨h.m_le, h.np_eq, h.ne_eq, hr.n_eq.trans h.n_eq, hr.good h.good, hr.indep h.good h.indep, ?_, ?_, ?_, ?_⟩
   · intro q hq1 hq2
     exact hr.lit q (by rw [h.n_eq]; omega) (fun f => f) (h.lit q hq1 hq2)
-  · intro p hp
-    have := h.m_le
-    exact hr.notProd h.good p (by rw [h.n_eq]; omega) (fun f => f) (h.notProd p hp)
+  · intro p hp hI
+    exact hr.notProd h.good p (by rw [h.n_eq]; omega) (fun f => f) (h.notProd p hp hI)
+  · intro p hp hI
+    exact hr.litX p (by rw [h.n_eq]; omega) (fun f => f) (h.litx p hp hI)
   · intro k hk
     rw [hr.cutRank_eq h.good k (fun c f => f.elim)]
     exact h.cut k hk
@@ -241,10 +249,11 @@ theorem absorb_hyps (np p : Nat) (t : STab)
 
 /-- **the absorption step of a round**: in the echelon gauge with a generator starting at photon `p`, `_add_photon_absorption` returns
     and the invariant holds for the next round -/
-theorem absorb_round (np ne p : Nat) (hp : p < np) (s : St) (h : RInv np ne (p + 1) s) (piv : Nat → Nat) (he : Echelon s.t piv)
-    (hrow : ∃ i, i < s.t.n ∧ piv i = p) : ∃ s', addPhotonAbsorption s p = .ok s' ∧ RInv np ne p s' := by
+theorem absorb_round (I : Nat → Prop) (np ne p : Nat) (hp : p < np) (hI : ¬ I p) (s : St) (h : RInv I np ne (p + 1) s)
+    (piv : Nat → Nat) (he : Echelon s.t piv)
+    (hrow : ∃ i, i < s.t.n ∧ piv i = p) : ∃ s', addPhotonAbsorption s p = .ok s' ∧ RInv I np ne p s' := by
   have hn : s.t.n = s.np + s.ne := by rw [h.n_eq, h.np_eq, h.ne_eq]
-  obtain ⟨h1, h2⟩ := absorb_hyps np p s.t h.lit (h.notProd p (by omega))
+  obtain ⟨h1, h2⟩ := absorb_hyps np p s.t h.lit (h.notProd p (by omega) hI)
   obtain ⟨i, hi, hpi⟩ := hrow
   have hlm : s.t.leftmost i = some p := by
     have hl := he.lead i hi
@@ -252,8 +261,8 @@ theorem absorb_round (np ne p : Nat) (hp : p < np) (s : St) (h : RInv np ne (p +
   obtain ⟨s', hs', hnp', hne', hr, hlit⟩ := addPhotonAbsorption_ok s p hn (by rw [h.np_eq]; exact hp) h.good ⟨i, hi, hlm⟩
     (by rw [h.np_eq]; exact h1) (by rw [h.np_eq]; exact h2)
   rw [h.np_eq] at hr
-  obtain ⟨r1, r2, r3, r4, r5, r6⟩ := h.reach hp s'.t hr
-  refine ⟨s', hs', ⟨by omega, hnp'.trans h.np_eq, hne'.trans h.ne_eq, r1, r2, r3, ?_, r5, ?_⟩⟩
+  obtain ⟨r1, r2, r3, r4, r5, r5x, r6⟩ := h.reach hp s'.t hr
+  refine ⟨s', hs', ⟨by omega, hnp'.trans h.np_eq, hne'.trans h.ne_eq, r1, r2, r3, ?_, r5, r5x, ?_⟩⟩
   · intro q hq1 hq2
     by_cases hqp : q = p
     · rw [hqp]; exact hlit
@@ -316,8 +325,8 @@ theorem photonLoop_cons (s : St) (j : Nat) (rest : List Nat) :
         cases addPhotonAbsorption { s with t := t1 } (j - 1) <;> rfl
 
 /-- **every round of the main loop returns and re-establishes the invariant** -/
-theorem round_ok (np ne p : Nat) (hp : p < np) (s : St) (h : RInv np ne (p + 1) s) :
-    ∃ s', photonRound s (p + 1) = .ok s' ∧ RInv np ne p s' := by
+theorem round_ok (I : Nat → Prop) (np ne p : Nat) (hp : p < np) (hI : ¬ I p) (s : St) (h : RInv I np ne (p + 1) s) :
+    ∃ s', photonRound s (p + 1) = .ok s' ∧ RInv I np ne p s' := by
   -- echelon gauge
   obtain ⟨t1, brs, piv, hr, he⟩ := rref_ok_of_indep s.t h.indep
   have i1 := h.cops t1 (rref_cops s.t t1 brs hr)
@@ -371,17 +380,21 @@ theorem round_ok (np ne p : Nat) (hp : p < np) (s : St) (h : RInv np ne (p + 1) 
         rcases hc with hc | hc
         · right; omega
         · left; exact hc
-    obtain ⟨r1, r2, r3, r4, r5, r6⟩ := i1.reach hp s2.t hreach
+    obtain ⟨r1, r2, r3, r4, r5, r5x, r6⟩ := i1.reach hp s2.t hreach
     have hnp3 : t3.NotProd p :=
-      v3.notProd p (by rw [hn1]; omega) (by omega) (i1.notProd p (by omega))
+      v3.notProd p (by rw [hn1]; omega) (by omega) (i1.notProd p (by omega) hI)
     have hnpp : s2.t.NotProd p := by
       rw [ht2]; exact trm_notProd t3 (np + e) p hE hpn3 (by omega) hg3 hZ hnp3
-    have i2 : RInv np ne (p + 1) s2 := by
-      refine ⟨by omega, hnp2', hne2', r1, r2, r3, r4, ?_, r6⟩
-      intro p' hp'
-      by_cases e' : p' = p
-      · rw [e']; exact hnpp
-      · exact r5 p' (by omega)
+    have i2 : RInv I np ne (p + 1) s2 := by
+      refine ⟨by omega, hnp2', hne2', r1, r2, r3, r4, ?_, ?_, r6⟩
+      · intro p' hp' hI'
+        by_cases e' : p' = p
+        · rw [e']; exact hnpp
+        · exact r5 p' (by omega) hI'
+      · intro p' hp' hI'
+        by_cases e' : p' = p
+        · rw [e'] at hI'; exact absurd hI' hI
+        · exact r5x p' (by omega) hI'
     -- echelon gauge again: the image `X_E X_p` of the emitter's `Z` forces a generator starting at `p`
     obtain ⟨t2, brs2, piv2, hr2, he2⟩ := rref_ok_of_indep s2.t i2.indep
     rw [hr2]; simp only
@@ -391,25 +404,163 @@ theorem round_ok (np ne p : Nat) (hp : p < np) (s : St) (h : RInv np ne (p + 1) 
     rw [← ht2] at ha
     have ha2 : t2.Spn a := (o2.spanEq i2.good).1.sub a ha
     have hrow := echelon_row_at t2 piv2 he2 p (by rw [i3.n_eq]; omega) a ha2 halow hant
-    exact absorb_round np ne p hp _ i3 piv2 he2 hrow
+    exact absorb_round I np ne p hp hI _ i3 piv2 he2 hrow
   · rw [if_neg hcond]
     simp only
     have hrow := row_at_exists t1 piv he hl hh p (by omega) hcond
-    exact absorb_round np ne p hp _ i1 piv he hrow
+    exact absorb_round I np ne p hp hI _ i1 piv he hrow
 
-/-- **the main loop returns** (sub-goals 1–3): from the invariant with `m` photons left, `photonLoop` over `j = m, …, 1` returns a
-    state in which every photon is absorbed -/
-theorem photonLoop_ok (np ne : Nat) (m : Nat) (s : St) (h : RInv np ne m s) :
-    ∃ s', photonLoop s ((List.range m).reverse.map (· + 1)) = .ok s' ∧ RInv np ne 0 s' := by
+/-- **the main loop returns** (sub-goals 1–3): from the invariant with `m` photons left, none of them isolated, `photonLoop` over
+    `j = m, …, 1` returns a state in which every photon is absorbed -/
+theorem photonLoop_ok (I : Nat → Prop) (np ne : Nat) (m : Nat) (hI : ∀ p, p < m → ¬ I p) (s : St) (h : RInv I np ne m s) :
+    ∃ s', photonLoop s ((List.range m).reverse.map (· + 1)) = .ok s' ∧ RInv I np ne 0 s' := by
   induction m generalizing s with
   | zero => exact ⟨s, rfl, h⟩
   | succ p ih =>
     have hp : p < np := h.m_le
-    obtain ⟨s1, h1, i1⟩ := round_ok np ne p hp s h
-    obtain ⟨s', h2, i2⟩ := ih s1 i1
+    obtain ⟨s1, h1, i1⟩ := round_ok I np ne p hp (hI p (by omega)) s h
+    obtain ⟨s', h2, i2⟩ := ih (fun p' hp' => hI p' (by omega)) s1 i1
     refine ⟨s', ?_, i2⟩
     rw [List.range_succ, List.reverse_append, List.reverse_singleton, List.singleton_append, List.map_cons,
       photonLoop_cons, h1]
     exact h2
+
+/-! ### an isolated photon: the round raises IndexError (finding D3 as a theorem about the model) -/
+
+theorem cnt_pos_of (n : Nat) (f : Nat → Bool) (i : Nat) (hi : i < n) (hf : f i = true) : 0 < cnt n f := by
+  unfold cnt
+  apply List.length_pos_of_mem (a := i)
+  simp only [List.mem_filter, List.mem_range]
+  exact ⟨hi, hf⟩
+
+/-- if a generator leads at `p`, the height does not drop at `p`: the branch without time-reversed measurement is taken -/
+theorem no_drop_of_row (t : STab) (piv : Nat → Nat) (he : Echelon t piv) (hl : List Int) (hh : t.heightFuncList = .ok hl)
+    (p : Nat) (hp : p < t.n) (hex : ∃ i, i < t.n ∧ piv i = p) : ¬ ((0 :: hl).getD (p + 1) 0 < (0 :: hl).getD p 0) := by
+  have hC : ∀ k, k < t.n → ((cnt t.n (fun i => decide (k < piv i)) : Nat) : Int) = (t.n : Int) - ((k : Int) + 1) - hl.getD k 0 :=
+    fun k hk => echelon_count_right t piv he hl hh k hk
+  obtain ⟨i, hi, hpi⟩ := hex
+  have hpos : 0 < cnt t.n (fun i => decide (piv i = p)) := cnt_pos_of _ _ i hi (by simp [hpi])
+  have e1 : (0 :: hl).getD (p + 1) 0 = hl.getD p 0 := by simp [List.getD]
+  rw [e1]
+  cases p with
+  | zero =>
+    have e0 : (0 :: hl).getD 0 0 = 0 := rfl
+    rw [e0]
+    have hsplit : cnt t.n (fun _ => true) = cnt t.n (fun i => decide (0 < piv i)) + cnt t.n (fun i => decide (piv i = 0)) := by
+      apply cnt_split
+      · intro i _
+        by_cases h : piv i = 0
+        · simp [h]
+        · have : 0 < piv i := by omega
+          simp [this]
+      · intro i _ ⟨h1, h2⟩
+        simp only [decide_eq_true_eq] at h1 h2
+        omega
+    rw [cnt_true] at hsplit
+    have := hC 0 hp
+    have hle : cnt t.n (fun i => decide (piv i = 0)) ≤ t.n := by omega
+    omega
+  | succ p' =>
+    have e2 : (0 :: hl).getD (p' + 1) 0 = hl.getD p' 0 := by simp [List.getD]
+    rw [e2]
+    have h1 := count_step t piv p'
+    have h2 := hC p' (by omega)
+    have h3 := hC (p' + 1) hp
+    omega
+
+/-- `_add_photon_absorption` on an isolated photon (`X_p` alone in its column): the chosen generator acts on no emitter,
+    `emitter_indices[0]` raises IndexError -/
+theorem absorb_err (s : St) (p : Nat) (hn : s.t.n = s.np + s.ne) (hp : p < s.np) (hx : s.t.LitX p) :
+    addPhotonAbsorption s p = .error .index := by
+  obtain ⟨w, hw, hrow, hoth⟩ := hx
+  have hpn : p < s.t.n := by omega
+  have hptw : ∀ j, j < s.t.n → s.t.ptype w j = if j = p then 1 else 0 := fun j hj => ptype_of_Xq s.t w p j hj hrow
+  have hlmw : s.t.leftmost w = some p := by
+    apply leftmost_of_lead s.t w p hpn
+    · intro j hj; rw [hptw j (by omega), if_neg (by omega)]
+    · rw [hptw p hpn, if_pos rfl]; decide
+  unfold addPhotonAbsorption
+  cases hsel : ((List.range s.t.n).reverse.filter fun i => s.t.leftmost i == some p).head? with
+  | none =>
+    exfalso
+    rw [List.head?_eq_none_iff] at hsel
+    have : w ∈ ((List.range s.t.n).reverse.filter fun i => s.t.leftmost i == some p) := by
+      simp only [List.mem_filter, List.mem_reverse, List.mem_range, beq_iff_eq]
+      exact ⟨hw, hlmw⟩
+    rw [hsel] at this; cases this
+  | some g =>
+    simp only
+    have hgm := List.mem_of_mem_head? hsel
+    simp only [List.mem_filter, List.mem_reverse, List.mem_range, beq_iff_eq] at hgm
+    obtain ⟨hgn, hlm⟩ := hgm
+    have hgw : g = w := by
+      apply Classical.byContradiction
+      intro hne
+      exact (leftmost_some s.t g p hlm).2.2 (hoth g hgn hne)
+    subst hgw
+    have cz := changeToZ_row s g p hgn hpn
+    generalize changeToZ s g p = r at cz
+    obtain ⟨s0, gl⟩ := r
+    simp only at cz ⊢
+    obtain ⟨c1, c2, c3, _, _, _, c7⟩ := cz
+    obtain ⟨s1, h1⟩ := addOneQubit_ok s0 gl p
+    obtain ⟨e1, e2, e3⟩ := addOneQubit_t s0 s1 gl p h1
+    rw [h1]; simp only
+    have hem : emitterIndices s1 g = [] := by
+      unfold emitterIndices
+      rw [List.filter_eq_nil_iff]
+      intro e he
+      have he' : e < s.ne := by
+        have := List.mem_range.mp he
+        rw [e3, c3] at this; exact this
+      have hj : s1.np + e < s.t.n := by rw [e2, c2, hn]; omega
+      have hne : s1.np + e ≠ p := by rw [e2, c2]; omega
+      obtain ⟨a1, a2⟩ := c7 (s1.np + e) hj hne
+      rw [e1, a1, a2, (hrow _ hj).1, (hrow _ hj).2]
+      simp [Xq, hne]
+    rw [hem]
+
+/-- **the round of an isolated photon raises IndexError** -/
+theorem round_err (I : Nat → Prop) (np ne p : Nat) (hp : p < np) (hI : I p) (s : St) (h : RInv I np ne (p + 1) s) :
+    photonRound s (p + 1) = .error .index := by
+  obtain ⟨t1, brs, piv, hr, he⟩ := rref_ok_of_indep s.t h.indep
+  have i1 := h.cops t1 (rref_cops s.t t1 brs hr)
+  obtain ⟨hl, hh, _⟩ := heightFuncList_ok_of_indep t1 i1.indep
+  have hn1 : t1.n = np + ne := i1.n_eq
+  have hx : t1.LitX p := i1.litx p (by omega) hI
+  have hexrow : ∃ i, i < t1.n ∧ piv i = p := by
+    obtain ⟨w, hw, hrow, _⟩ := hx
+    refine ⟨w, hw, ?_⟩
+    have hl := he.lead w hw
+    have := ptype_of_Xq t1 w p (piv w) hl.1 hrow
+    by_cases e : piv w = p
+    · exact e
+    · rw [if_neg e] at this; exact absurd this hl.2.2
+  have hcond := no_drop_of_row t1 piv he hl hh p (by omega) hexrow
+  unfold photonRound
+  rw [hr]; simp only
+  rw [hh]; simp only [Nat.add_sub_cancel]
+  rw [if_neg hcond]
+  simp only
+  exact absorb_err { s with t := t1 } p (by show t1.n = s.np + s.ne; rw [hn1, h.np_eq, h.ne_eq])
+    (by show p < s.np; rw [h.np_eq]; exact hp) hx
+
+/-- **the main loop raises IndexError as soon as a remaining photon is isolated** -/
+theorem photonLoop_err (I : Nat → Prop) (np ne : Nat) (m : Nat) (hex : ∃ p, p < m ∧ I p) (s : St) (h : RInv I np ne m s) :
+    photonLoop s ((List.range m).reverse.map (· + 1)) = .error .index := by
+  induction m generalizing s with
+  | zero => obtain ⟨p, hp, _⟩ := hex; omega
+  | succ p ih =>
+    have hp : p < np := h.m_le
+    rw [List.range_succ, List.reverse_append, List.reverse_singleton, List.singleton_append, List.map_cons, photonLoop_cons]
+    by_cases hI : I p
+    · rw [round_err I np ne p hp hI s h]
+    · obtain ⟨s1, h1, i1⟩ := round_ok I np ne p hp hI s h
+      rw [h1]
+      simp only
+      apply ih _ s1 i1
+      obtain ⟨q, hq, hIq⟩ := hex
+      have : q ≠ p := fun e => hI (e ▸ hIq)
+      exact ⟨q, by omega, hIq⟩
 
 end Graphiq.Solver
